@@ -19,7 +19,8 @@ RULE = ('One host (PubSubManager / AsyncPubSubManager subclass, real '
         'for other hosts / unknown ids / repeated; fault plan: the transport '
         'send, the disconnect handler or the application callback raises at '
         "designated messages, and the backend's listen iterator raises at "
-        'chosen positions and is re-entered. After every message a valid '
+        'chosen positions - also before the listener has seen any message - '
+        'and is re-entered. After every message a valid '
         'sentinel emit from another host with a unique payload is inserted. '
         'Oracle: every sentinel is delivered exactly once, in order; the '
         'listener only ends at end-of-stream; own-host echoes have no effect; '
@@ -214,6 +215,11 @@ def _run(case, cl):
             return pickle.dumps(obj)
         return t.encode() if how == 'jsonb' else t
 
+    # whatever the set-up published is consumed first, so that the generated
+    # channel is read by a listener that has not yet seen any message
+    if host.unread():
+        host.consume(host.unread())
+        host.logged[:] = []
     # ---- build the channel
     labels = {'aio': aio, 'nontrivial': False}
     kinds = set()
